@@ -333,6 +333,11 @@ theorem c36_env_error_blocks (p : Params) (fs : FileSystem) (o : Options) (env :
 theorem c36_load (p : Params) (fs : FileSystem) (o : Options) (vars : List (String × String)) :
     load p fs o vars = merge p fs o (loadEnv vars) := rfl
 
+/-- … where the value of key `K` is that of the last variable named exactly `ORD_K`. -/
+theorem c36_load_env (vars : List (String × String)) (key : String) :
+    loadEnv vars key = (vars.reverse.find? (fun kv => decide (kv.1 = "ORD_" ++ key))).map (·.2) :=
+  loadEnv_eq vars key
+
 /-! ## non-vacuity -/
 
 section Examples
